@@ -621,6 +621,9 @@ def char_class_stream(ctx):
             break
     ctx.obligation('correspondence:re-IGNORECASE/\\s/\\d-vs-Legacy.ciMatch/Csv.isPySpace/digit-table', 'correspondence', not bad,
                    cases=6 + 2, error=json.dumps(bad[0])[:600] if bad else None)
+    both = [ord(c) for c in py_d if c.isspace()] + [c for c in py_s if chr(c).isdecimal()]
+    ctx.obligation('hypothesis:Legacy.H_space(no-\\s-character-is-a-decimal-digit; CPython tables, all code points)', 'assumption-test', not both,
+                   cases=len(py_d) + len(py_s), error=json.dumps(both[:5]) if both else None)
     return 8
 
 
